@@ -92,9 +92,9 @@ def plan(tier, seed):
         groups.append(g)
     for name in ("bcc-conv-2", "hcp-2", "tri-P1-3"):
         g = []
-        for mag, mass in (("collinear", "none"), ("noncollinear", "custom"), ("none", "custom")):
+        for mag, mass, ext in (("collinear", "none", False), ("noncollinear", "custom", False), ("none", "custom", False), ("none", "none", True)):
             for S in extra:
-                g.append({"kind": "super", "xtal": name, "variant": "as-is", "S": S, "symprec": 1e-5, "mag": mag, "mass": mass})
+                g.append({"kind": "super", "xtal": name, "variant": "as-is", "S": S, "symprec": 1e-5, "mag": mag, "mass": mass, "extsym": ext})
         groups.append(g)
     # (3) primitive cells
     pm_S = [np.eye(3, dtype=int).tolist(), [[2, 0, 0], [0, 2, 0], [0, 0, 2]], [[2, 0, 0], [0, 1, 0], [0, 0, 3]],
@@ -114,7 +114,8 @@ def plan(tier, seed):
                             if tier == "quick" and snf and not dense:
                                 continue
                             g.append({"kind": "prim", "xtal": name, "variant": var, "S": S, "pm": pm, "dense": dense,
-                                      "snf": snf, "mag": "collinear" if name == "bcc-conv-2" else "none"})
+                                      "snf": snf, "mag": "collinear" if name == "bcc-conv-2" else "none",
+                                      "reorder": bool(dense and not snf), "extsym": bool(var == "shifted")})
         groups.append(g)
     meta = {"alphabet": {"SMALL{-1,0,1}": len(small), "extra_matrices": len(extra), "crystals": len(names),
                          "small_cells": small_cells, "primitive_S": len(pm_S), "PMAT": 10,
@@ -127,11 +128,17 @@ def plan(tier, seed):
 _cache = {}
 
 
-def _xtal(name, variant, seed):
-    k = (name, variant, seed)
+def _xtal(name, variant, seed, extsym=False):
+    k = (name, variant, seed, extsym)
     if k not in _cache:
         c = X.by_name()[name]
-        _cache[k] = next(v for v in X.variants(c, seed) if v["variant"] == variant)
+        v = next(v for v in X.variants(c, seed) if v["variant"] == variant)
+        if extsym:
+            # extended (indexed) symbols: every second atom of a species gets the suffix "1" if that keeps the
+            # centring translations species-preserving, i.e. all atoms of the last species are renamed
+            last = v["symbols"][-1]
+            v = dict(v, symbols=[s_ + "1" if s_ == last else s_ for s_ in v["symbols"]])
+        _cache[k] = v
     return _cache[k]
 
 
@@ -217,11 +224,11 @@ def _atoms_key(c, S, sc):
 def run_super(case, seed):
     from phonopy.structure.cells import get_supercell
 
-    c = _xtal(case["xtal"], case["variant"], seed)
+    c = _xtal(case["xtal"], case["variant"], seed, case.get("extsym", False))
     S = case["S"]
     d = RL.det3(S)
     mags = _magmoms(c, case["mag"])
-    masses = _masses(c, case["mass"])
+    masses = _masses(c, "custom" if case.get("extsym") else case["mass"])
     cell = X.to_phonopy(c, masses=masses, magmoms=mags)
     if masses is None:
         masses_eff = list(cell.masses)
@@ -312,9 +319,9 @@ def run_prim(case, seed):
     from phonopy import Phonopy
     from phonopy.structure.cells import guess_primitive_matrix
 
-    c = _xtal(case["xtal"], case["variant"], seed)
+    c = _xtal(case["xtal"], case["variant"], seed, case.get("extsym", False))
     mags = _magmoms(c, case["mag"])
-    cell = X.to_phonopy(c, magmoms=mags)
+    cell = X.to_phonopy(c, magmoms=mags, masses=_masses(c, "custom") if case.get("extsym") else None)
     S = np.array(case["S"], int)
     arg, P = _pmat(case, c)
     trans = 1
@@ -338,6 +345,33 @@ def run_prim(case, seed):
         why = "structural" if not tiles_struct else "magnetic-moments-only"
         return _fail("C04/prim/nontiling-accepted/" + why, "%s S=%s pm=%s: centring does not tile the crystal (%s) but a %d-atom primitive cell was built" % (
             case["xtal"], S.tolist(), case["pm"], why, len(pr)), nontrivial=True, transitions=trans)
+    bad = judge_primitive(c, sc, pr, P, mags, trans)
+    if bad is not None:
+        return bad
+    out = dict(ok=True, outcome="prim-ok:n=%d" % len(pr), nontrivial=bool(len(pr) < len(c["symbols"]) or len(sc) > len(pr)), transitions=trans)
+    if case.get("reorder") and len(pr) > 1:
+        from phonopy.structure.cells import get_primitive
+
+        want = pr.scaled_positions[::-1].copy()
+        tm = np.linalg.inv(np.array(case["S"], float)) @ P
+        try:
+            pr2 = _quiet(get_primitive, sc, tm, symprec=1e-5, store_dense_svecs=case["dense"], positions_to_reorder=want)
+        except Exception as e:
+            return _fail("C04/prim/reorder-raised", "positions_to_reorder raised %s" % type(e).__name__, nontrivial=True, transitions=trans + 1)
+        d = pr2.scaled_positions - want
+        d -= np.rint(d)
+        if np.abs(d).max() > 1e-6:
+            return _fail("C04/prim/reorder-order", "positions_to_reorder order not honoured", nontrivial=True, transitions=trans + 1)
+        bad = judge_primitive(c, sc, pr2, P, mags, trans + 1)
+        if bad is not None:
+            bad["sig"] = bad["sig"].replace("C04/prim/", "C04/prim/reordered/")
+            return bad
+        out["transitions"] = trans + 1
+        out["outcome"] += "+reordered"
+    return out
+
+
+def judge_primitive(c, sc, pr, P, mags, trans):
     L = np.array(c["lattice"], float)
     Lp = P.T @ L
     if np.abs(pr.cell - Lp).max() > 1e-8:
@@ -403,7 +437,7 @@ def run_prim(case, seed):
         want = sorted(i for i in range(ns) if s2p[i] == s2p[a])
         if sorted(imgs) != want:
             return _fail("C04/prim/perm-transitivity", "orbit of atom %d is not its sublattice exactly once" % a, nontrivial=True, transitions=trans)
-    return dict(ok=True, outcome="prim-ok:n=%d" % len(pr), nontrivial=bool(len(pr) < len(c["symbols"]) or nt > 1), transitions=trans)
+    return None
 
 
 def run_group(cases, seed):
